@@ -1402,7 +1402,8 @@ class DAMP(Command):
     def __init__(self, shx, spline: list):
         super(DAMP, self).__init__(shx, spline)
         values, _ = self._parse_line(spline, intnums=False)
-        self.damp, self.limse = 0, 0
+        # DAMP damp[0.7] limse[15]
+        self.damp, self.limse = 0.7, 15
         if len(values) > 0:
             self.damp = values[0]
         if len(values) > 1:
